@@ -103,9 +103,16 @@ def run(ctx, spec, units, violations, inconcl, meta):
                     mmeta.setdefault('not_discharged', []).append({'scenario': sc, 'why': u['sample']['not_discharged']})
                 continue
             if d['verdict'] == 'inconclusive':
-                inconcl.append(('M:' + sc, d['reason']))
+                if group.get('soft_inconclusive'):
+                    # the all-N lifting by an invariant template is an *extra* over the bounded scenario of the same name: if the template
+                    # does not fit (e.g. the loop was restructured) it is reported as not discharged; the bounded scenario still decides
+                    u['verdict'] = 'not-discharged'
+                    u['sample']['not_discharged'] = d['reason']
+                    mmeta.setdefault('not_discharged', []).append({'scenario': sc, 'why': d['reason']})
+                else:
+                    inconcl.append(('M:' + sc, d['reason']))
             for f in d['findings']:
-                violations.append(make_violation(prop, sc, f))
+                violations.append(make_violation(prop, sc.replace('@ind', ''), f))
 
 
 def validate_translator(root, mir, mmeta, inconcl):
